@@ -1,7 +1,7 @@
 import json
 props = {
  "C09": ("DESIGN.md 3 (I3, I1), 4 C09",
-   "Seeded search over operation histories (edits in every supported spelling, sharing, copies, algebra, both solvers, apply_BCs, injected call failures) interleaved by a seeded scheduler over 1-5 simulated user tasks; after every op a behavioural shadow solve (deepcopy of the variable with all hidden state, then one implicit and one explicit solve) must equal the same solves on a freshly constructed variable built from the visible state; bounded liveness after the last fault; injected failures at three seams (external solver argument, module-level default solver, allocation failure inside apply_BCs) and at documented error paths; edits must have the effect of the same numpy operation. Besides the random histories a stratified batch covers grid class x every history of <=2 (quick: sample, thorough: all 8 370) and <=3 letters (quick: sample, thorough: all 251 370) over a 30-letter edit/solve/fault alphabet on two variables sharing one BC object (DESIGN 13.1). Exploration, not proof: the history space is unbounded and sampled."),
+   "Seeded search over operation histories (edits in every supported spelling, sharing, copies, algebra, both solvers, apply_BCs, injected call failures) interleaved by a seeded scheduler over 1-5 simulated user tasks; after every op a behavioural shadow solve (deepcopy of the variable with all hidden state, then one implicit and one explicit solve) must equal the same solves on a freshly constructed variable built from the visible state; bounded liveness after the last fault; injected failures at three seams (external solver argument, module-level default solver, allocation failure inside apply_BCs) and at documented error paths; edits must have the effect of the same numpy operation. Besides the random histories a stratified batch covers grid class x every history of <=2 (quick: sample, thorough: all 8 928) and <=3 letters (quick: sample, thorough: all 277 047) over a 31-letter edit/solve/fault alphabet on two variables sharing one BC object (DESIGN 13.1). Exploration, not proof: the history space is unbounded and sampled."),
  "C14": ("DESIGN.md 3 (I2, I1, I8), 4 C14",
    "Seeded histories in which operator/eval/copy results become operands and targets of later edits by other tasks: per-op numpy reference for values, value-copy reference for BCs, fresh-twin reference for ghost values, byte-level frame condition on every other pool object after every later op, alias scan at creation; copy() must reproduce the full array incl. ghost cells and behave equally in a shadow solve; a failing *eval must leave its operands editable. A stratified batch covers {cell,face} x every operator / reflected operator / *eval arity / copy x operand kinds x all 9 grid classes (1 098 cells, all of them in every quick run), each followed by later edits of result and operands. Exploration over expression trees and later-modification histories."),
  "C15": ("DESIGN.md 3 (I1, I7, I8), 4 C15",
